@@ -9,7 +9,9 @@ Per run:
   (2) the property predicates evaluated on the real code: linearity, total = trapezoid mass, sample n+2 then
       project = sample n, marginalise before/after, direct -> analytic under grid refinement, admix_props = identity
       equals direct, inbreeding F = 1e-9 ~ no inbreeding, sampling probabilities sum to one, bookkeeping
-      (extrap_x, pop_ids, corner mask, inputs untouched).
+      (extrap_x, pop_ids, corner mask, inputs untouched);
+  (3) c05_seq.py: SEQUENCES of calls in one process that collide on every memo key behind these paths (and non-contiguous
+      array layouts): every call against the Coq model, the predicates of (2) on the later calls; replay = call + predecessors.
 """
 import json, math, os
 from concurrent.futures import ThreadPoolExecutor
@@ -425,7 +427,14 @@ def correspondence(ctx, groups):
                 if nbad <= 3:
                     what = ('%s disagrees with the binomial-integration model (%s): coq result %r'
                             % (c.get('name') or c['fn'], json.dumps(describe(c))[:220], rr))
-                    ctx.violation(what, data={'call': c, 'impl': r, 'coq': rr})
+                    data = None
+                    if c.get('_sid') is not None:          # a call of a session: the replay is the call with its predecessors
+                        from harness.props import c05_seq
+                        data = c05_seq.seq_data(c, r, rr, c05_seq.SESSIONS)
+                        if data is not None:
+                            what += ' -- call #%d (%s) of session %s, after [%s]' % (
+                                c['_pos'], c['branch'], c['_sid'], ', '.join(x['branch'].split(':', 2)[-1] for x in data['sequence'][:-1])[:200])
+                    ctx.violation(what, data=data or {'call': c, 'impl': r, 'coq': rr})
 
 # ------------------------------------------------------------------------------------------------
 # property predicates on the implementation
@@ -623,15 +632,23 @@ def predicates(ctx):
 def run(ctx):
     ctx.rule = ('correspondence cases = (entry point, dispatch branch, dimension 1..5, per-axis grid length, grid family and +-1e-16 end-point '
                 'perturbation, sample sizes, density family, admixture matrix kind, ascertained axis, F, ploidy, mask_corners) from one PRNG; '
-                'every case is a distinct non-trivial input; predicate evaluations are counted separately')
+                'every case is a distinct non-trivial input; predicate evaluations are counted separately; plus, on every run, the systematic '
+                'call SEQUENCES of c05_seq.py (one fresh process per session, list order recorded and checked): per memoised path (semi-analytic '
+                'd=1..5, direct/het/admix d=1..4, inbreeding d=1..3, BetaBinomConvolution, Spectrum.project) calls that share (n, grid | grid length, '
+                'ploidy, F, position) and differ in phi / het_ascertained / mask_corners / admix_props / population order / dimension, single calls '
+                'with two or three identical populations per het choice, and non-C-contiguous phi / grid views in every dimension')
     ctx.assumptions += ['scipy.special.betainc(a, b, x) for positive integers a, b is the binomial tail polynomial (oracle slot; compared at 1e-10)',
                         'exp(betaln(i+a, n-i+b) - betaln(a, b)) is the ratio of rising factorials a^(i) b^(n-i) / (a+b)^(n) (compared at 1e-10)',
                         'float64 evaluation is compared with 128-bit software floats (NumD) / exact rationals at 1e-10 x largest entry',
                         'numpy vectorisation of the 1-D formula over the other axes is modelled as mapping the 1-D function over those axes']
     ctx.trusted += ['scipy.special.betainc, scipy.special.betaln/gammaln, scipy.special.comb as oracles for the exact polynomial / rational values']
+    from harness.props import c05_seq
+    replay_sessions = None
     if ctx.replay:
         rp = json.load(open(ctx.replay))
         inp = rp.get('input') or {}
+        if 'sequence' in inp:                   # a call with its predecessors: the whole sequence again, in one fresh process
+            replay_sessions = [c05_seq.session_from_replay(inp)]
         calls = [inp['call']] if 'call' in inp else []
         fp = [c for c in calls if c['fn'] == 'from_phi']; pv = [c for c in calls if c['fn'] == 'private']
         ib = [c for c in calls if c['fn'] == 'from_phi_inbreeding']; bc = [c for c in calls if c['fn'] == 'bbconv']
@@ -663,6 +680,9 @@ def run(ctx):
                  sample={'call': describe(c), 'impl': (r.get('data') or [r.get('refused')])[:4]})
         bookkeeping(ctx, c, r)
         groups[tag][1].append((c, r))
+    # sequences of calls in one process colliding on the memo keys (c05_seq.py); their calls join the model comparison below
+    if replay_sessions is not None or not ctx.replay:
+        c05_seq.run(ctx, groups, replay_sessions)
     correspondence(ctx, [(t, fn, pairs) for t, (fn, pairs) in groups.items()])
     if not ctx.replay:
         predicates(ctx)
